@@ -7,7 +7,7 @@ import core
 import lockstep
 
 PID = "C20"
-CONE = ["Model/Plot.v", "Proofs/PlotProofs.v"]
+CONE = ["Model/Plot.v", "Proofs/PlotProofs.v", "Proofs/PlotGeneral.v"]
 IMPORTS = ["Base.Dec", "Model.Plot"]
 
 
